@@ -1,6 +1,7 @@
 //! C13: enumeration of transport behaviours / call placements over the real drivers.
 
 use super::threaded_h::{self, Control, Outcome, Plan, ReadDev, WriteDev};
+use super::tokio_h;
 use crate::common::*;
 use rayon::prelude::*;
 use serde_json::json;
@@ -37,48 +38,84 @@ fn threaded_plans(tier: Tier, base: &Outcome) -> Vec<Plan> {
     plans
 }
 
-pub fn run_c13(tier: Tier) -> i32 {
-    let mut report = Report::new("C13", tier, "fault_enumeration");
-    let known = KnownFindings::load();
-    let base = threaded_h::execute(&Plan::default());
-    if !base.machinery.is_empty() { for m in &base.machinery { report.machinery_errors.push(format!("threaded baseline: {}", m)); } return report.finish(); }
+fn run_driver(report: &mut Report, known: &KnownFindings, tier: Tier, driver: &str, execute: fn(&Plan) -> Outcome, pool: &rayon::ThreadPool) -> bool {
+    let base = execute(&Plan::default());
+    if !base.machinery.is_empty() { for m in &base.machinery { report.machinery_errors.push(format!("{} baseline: {}", driver, m)); } return false; }
+    if !base.problems.is_empty() {
+        // the baseline itself misbehaves: report it and still enumerate
+    }
     let plans = threaded_plans(tier, &base);
-    let pool = rayon::ThreadPoolBuilder::new().num_threads(threads()).build().unwrap();
-    eprintln!("threaded: {} plans (baseline {} reads, {} writes, {} flushes, {} iterations)", plans.len(), base.reads, base.writes, base.flushes, base.iterations);
-    let outcomes: Vec<Outcome> = pool.install(|| plans.par_iter().map(threaded_h::execute).collect());
+    eprintln!("{}: {} plans (baseline {} reads, {} writes, {} flushes, {} iterations)", driver, plans.len(), base.reads, base.writes, base.flushes, base.iterations);
+    let outcomes: Vec<Outcome> = pool.install(|| plans.par_iter().map(execute).collect());
     let mut distinct: HashSet<u64> = HashSet::new();
     let mut first: BTreeMap<String, (String, Outcome)> = BTreeMap::new();
     let mut machinery = 0;
+    let size = |p: &Plan| p.reads.len() + p.writes.len() + p.flush_errors.len() + p.controls.len() + p.refuse.len();
     for o in std::iter::once(&base).chain(outcomes.iter()) {
         distinct.insert(o.digest());
-        if !o.machinery.is_empty() { machinery += 1; if machinery <= 3 { report.machinery_errors.push(format!("plan {:?}: {:?}", o.plan, o.machinery)); } continue; }
+        if !o.machinery.is_empty() { machinery += 1; if machinery <= 3 { report.machinery_errors.push(format!("{} plan {:?}: {:?}", driver, o.plan, o.machinery)); } continue; }
         for (signature, detail) in &o.problems {
-            let size = o.plan.reads.len() + o.plan.writes.len() + o.plan.flush_errors.len() + o.plan.controls.len() + o.plan.refuse.len();
-            let better = match first.get(signature) { None => true, Some((_, old)) => size < old.plan.reads.len() + old.plan.writes.len() + old.plan.flush_errors.len() + old.plan.controls.len() + old.plan.refuse.len() };
+            let better = match first.get(signature) { None => true, Some((_, old)) => size(&o.plan) < size(&old.plan) };
             if better { first.insert(signature.clone(), (detail.clone(), o.clone())); }
         }
     }
     for (signature, (detail, o)) in &first {
-        let v = Violation::new("C13", format!("threaded: {}", signature), detail.clone());
+        let v = Violation::new("C13", format!("{}: {}", driver, signature), detail.clone());
         if let Some(k) = known.matches(&v) { report.known_hit.insert((v.property.clone(), format!("{} [{}]", k.what_fails, k.signature))); continue; }
         // the same plan must fail the same way again before it is believed
-        let again = threaded_h::execute(&o.plan);
+        let again = execute(&o.plan);
         let mut v = v;
         if !again.problems.iter().any(|(s, _)| s == signature) { v.detail = format!("{} [replay note: a second execution of the same plan did not reproduce it: {:?}]", v.detail, again.problems); }
-        let body = json!({"kind": "threaded-plan", "plan": format!("{:?}", o.plan), "events": o.events, "results": o.results, "io_log": o.io_log, "wire_packet_types_per_connection": o.wire, "signature": signature, "detail": detail});
-        let path = write_replay("C13", &format!("threaded-{}", signature), &body);
+        let body = json!({"kind": "driver-plan", "driver": driver, "plan": format!("{:?}", o.plan), "events": o.events, "results": o.results, "io_log": o.io_log, "wire_packet_types_per_connection": o.wire, "signature": signature, "detail": detail});
+        let path = write_replay("C13", &format!("{}-{}", driver, signature), &body);
         report.violations.push((v, path));
     }
     report.add_count("evaluations", (plans.len() + 1) as u64);
-    report.add_count("threaded_executions", (plans.len() + 1) as u64);
-    report.set("distinct_nontrivial", json!(distinct.len()));
-    report.set("rule", json!("threaded driver: baseline workload (connect, subscribe, QoS1 publish by callback, 5000-byte QoS1 publish, QoS0 publish, 5000-byte inbound publish, stop, close) executed on the real new_threaded_client over a gated transport; enumerated: every single deviation {read: 1 byte, half, would-block, EOF, error; write: 1 byte, all-but-one, would-block, interrupted, zero, error; flush error; refused connection} at every read/write/flush call index of the baseline, pairs of a benign deviation with any deviation (every third pair in the quick tier), and every placement of close / close+submit / submit+close / stop / stop+DISCONNECT / stop+start before every loop iteration; distinct = distinct (event stream, operation results, connection count, problems) digests"));
-    report.set("baseline", json!({"reads": base.reads, "writes": base.writes, "flushes": base.flushes, "iterations": base.iterations, "events": base.events, "results": base.results}));
-    report.set("samples", json!(outcomes.iter().take(3).map(|o| json!({"plan": format!("{:?}", o.plan), "events": o.events, "results": o.results})).collect::<Vec<_>>()));
+    report.add_count(&format!("{}_executions", driver), (plans.len() + 1) as u64);
+    report.add_count("distinct_nontrivial", distinct.len() as u64);
+    report.set(&format!("{}_baseline", driver), json!({"reads": base.reads, "writes": base.writes, "flushes": base.flushes, "rounds": base.iterations, "events": base.events, "results": base.results}));
+    report.set(&format!("{}_samples", driver), json!(outcomes.iter().filter(|o| !o.plan.reads.is_empty() || !o.plan.controls.is_empty()).take(3).map(|o| json!({"plan": format!("{:?}", o.plan), "events": o.events, "results": o.results})).collect::<Vec<_>>()));
+    true
+}
+
+pub fn run_c13(tier: Tier) -> i32 {
+    let mut report = Report::new("C13", tier, "fault_enumeration");
+    let known = KnownFindings::load();
+    let pool = rayon::ThreadPoolBuilder::new().num_threads(threads()).build().unwrap();
+    let ok_threaded = run_driver(&mut report, &known, tier, "threaded", threaded_h::execute, &pool);
+    let ok_tokio = run_driver(&mut report, &known, tier, "tokio", tokio_h::execute, &pool);
+    if !(ok_threaded && ok_tokio) { return report.finish(); }
+    report.set("rule", json!("both real drivers (new_threaded_client on a gated blocking transport, new_tokio_client on a scripted AsyncRead/AsyncWrite under a paused current-thread runtime): baseline workload (connect, subscribe, QoS1 publish, 5000-byte QoS1 publish, QoS0 publish, 5000-byte inbound publish, stop, close); enumerated: every single deviation {read: 1 byte, half, would-block/pending, EOF, error; write: 1 byte, all-but-one, would-block/pending, interrupted, zero, error; flush error; refused connection} at every read/write/flush call index of the baseline, pairs of a benign deviation with any deviation (every third pair in the quick tier), and every placement of close / close+submit / submit+close / stop / stop+DISCONNECT / stop+start before every loop iteration (threaded) or harness round (tokio); distinct = distinct (event stream, operation results, connection count, problems) digests"));
+    let samples = json!([report.coverage.get("threaded_samples").cloned().unwrap_or(json!([])), report.coverage.get("tokio_samples").cloned().unwrap_or(json!([]))]);
+    report.set("samples", samples);
     report.set("exhaustive", json!(tier == Tier::Thorough));
     super::ws::run(&mut report, tier);
-    report.assume("preemption inside std::sync::mpsc / Mutex / Condvar is not explored: the cross-thread surface is one unbounded channel into the loop and one result slot back, and every position of every message in the loop's observation sequence is enumerated");
+    report.assume("preemption inside std::sync::mpsc / Mutex / Condvar and the multi-threaded tokio scheduler are not explored: the cross-thread surface is one unbounded channel into the loop and one result slot back, and every position of every message in the loop's observation sequence is enumerated");
+    report.assume("tokio: exactly one kind of source is made ready per harness round, which removes select!'s random tie-break; orders that need two sources ready at once are covered by E2's mirror and by the threaded driver");
     report.assume("bytes on the transport are judged by the reference decoder (well-formed stream, payload integrity, no duplicates), not against an instrumented copy of the engine's service output");
     report.assume("the tokio WebSocket path is the third-party stream_ws adapter and is not covered");
     report.finish()
+}
+
+/// `mc c13-debug <threaded|tokio> <spec>`: executes one plan and prints what happened.  spec = comma list of
+/// rN=One|Half|Block|Eof|Err, wN=One|AllButOne|Block|Interrupted|Zero|Err, fN, xN, cN=Close|CloseThenSubmit|SubmitThenClose|Stop|StopDisconnect|StopThenStart
+pub fn debug_plan(driver: &str, spec: &str) -> i32 {
+    let mut plan = Plan::default();
+    for item in spec.split(',').filter(|s| !s.is_empty()) {
+        let (head, value) = match item.split_once('=') { Some((h, v)) => (h, v), None => (item, "") };
+        let index: usize = head[1..].parse().unwrap_or(0);
+        match &head[..1] {
+            "r" => { plan.reads.insert(index, match value { "One" => ReadDev::One, "Half" => ReadDev::Half, "Block" => ReadDev::Block, "Eof" => ReadDev::Eof, _ => ReadDev::Err }); }
+            "w" => { plan.writes.insert(index, match value { "One" => WriteDev::One, "AllButOne" => WriteDev::AllButOne, "Block" => WriteDev::Block, "Interrupted" => WriteDev::Interrupted, "Zero" => WriteDev::Zero, _ => WriteDev::Err }); }
+            "f" => plan.flush_errors.push(index),
+            "x" => plan.refuse.push(index),
+            "c" => { plan.controls.insert(index, match value { "Close" => Control::Close, "CloseThenSubmit" => Control::CloseThenSubmit, "SubmitThenClose" => Control::SubmitThenClose, "Stop" => Control::Stop, "StopDisconnect" => Control::StopDisconnect, _ => Control::StopThenStart }); }
+            _ => {}
+        }
+    }
+    let o = if driver == "tokio" { tokio_h::execute(&plan) } else { threaded_h::execute(&plan) };
+    println!("plan {:?}", o.plan);
+    for l in &o.io_log { println!("  io {}", l); }
+    println!("events {:?}\nresults {:?}\nconnections {} wire {:?}\nproblems {:?}\nmachinery {:?}", o.events, o.results, o.connections, o.wire, o.problems, o.machinery);
+    if o.problems.is_empty() && o.machinery.is_empty() { 0 } else { 1 }
 }
